@@ -13,8 +13,15 @@ EXTENDS FindSnvs, IOUtils
 
 Trace == JsonDeserialize(IOEnv.TRACE_FILE)
 
-VARIABLES l, ctx, cur, bad
-tvars == <<hist, last, depth, l, ctx, cur, bad>>
+VARIABLES l, ctx, cur, obs, bad
+tvars == <<hist, last, depth, l, ctx, cur, obs, bad>>
+
+(* cur: the model's depth table for EVERY read-filter configuration (the recorded one is ctx.fc);  *)
+(* obs: the depth table the program reported (depth events).  Records are judged against obs, so   *)
+(* that the threshold rule is validated independently of a depth defect.                           *)
+AllFC(fc) == {FCfg(m, kd, kq, ks) : m \in {0, 20, 30, fc.minq}, kd \in BOOLEAN, kq \in BOOLEAN, ks \in BOOLEAN}
+SameFC(a, b) == a.minq = b.minq /\ a.kd = b.kd /\ a.kq = b.kq /\ a.ks = b.ks
+Mine == cur[CHOOSE c \in DOMAIN cur : SameFC(c, ctx.fc)]
 
 Range(s) == {s[i] : i \in 1..Len(s)}
 AlnOfEvent(e) == [s |-> e.s, flags |-> Range(e.flags), mapq |-> e.mapq, cells |-> e.cells]
@@ -28,18 +35,18 @@ RecordVerdict(e) ==
   LET p   == e.p
       th  == ctx.th
       ref == ctx.ref[p]
-      K   == Keep(cur, p, th)
+      K   == Keep(obs, p, th)
       ord == <<ref>> \o e.alt
-      mf(b) == MeanFreq(cur, p, b)
-  IN  IF Ambiguous(cur, p, th) THEN "ok"
-      ELSE IF ~Emitted(cur, p, th) THEN "EmitIffTwo"
+      mf(b) == MeanFreq(obs, p, b)
+  IN  IF Ambiguous(obs, p, th) THEN "ok"
+      ELSE IF ~Emitted(obs, p, th) THEN "EmitIffTwo"
       ELSE IF e.ref # ref THEN "RefFirst"
-      ELSE IF e.masked # MaskedR(cur, p, th, ref) THEN "RefMasked"
+      ELSE IF e.masked # MaskedR(obs, p, th, ref) THEN "RefMasked"
       ELSE IF Range(e.alt) # K \ {ref} \/ Len(e.alt) # Cardinality(K \ {ref}) THEN "AllelesListed"
       ELSE IF \E i \in 1..(Len(e.alt) - 1) : mf(e.alt[i])[1] < mf(e.alt[i + 1])[1] THEN "AltOrdered"
-      ELSE IF \E s \in 1..ctx.samples : e.sAD[s] # [i \in 1..Len(ord) |-> cur[s][p][ord[i]]] THEN "SampleAD"
-      ELSE IF e.AD # [i \in 1..Len(ord) |-> SumDepth(cur, 1..ctx.samples, p, ord[i])] THEN "InfoAD"
-      ELSE IF /\ Covered(cur, p) = 1..ctx.samples
+      ELSE IF \E s \in 1..ctx.samples : e.sAD[s] # [i \in 1..Len(ord) |-> obs[s][p][ord[i]]] THEN "SampleAD"
+      ELSE IF e.AD # [i \in 1..Len(ord) |-> SumDepth(obs, 1..ctx.samples, p, ord[i])] THEN "InfoAD"
+      ELSE IF /\ Covered(obs, p) = 1..ctx.samples
               /\ mf(ref)[2] <= 1000000
               /\ \E i \in 1..Len(ord) :
                    /\ ~(i = 1 /\ e.masked)
@@ -50,14 +57,17 @@ RecordVerdict(e) ==
 Verdict(e) ==
   CASE e.op = "begin" -> "ok"
     [] e.op = "aln"   -> IF Len(e.cells) = ctx.n /\ e.s \in 1..ctx.samples THEN "ok" ELSE "MalformedEvent"
-    [] e.op = "depth" -> IF \A s \in 1..ctx.samples : e.d[s] = AsList(cur, s, e.p) THEN "ok" ELSE "DepthIsFilteredPileup"
+    [] e.op = "depth" -> IF \A s \in 1..ctx.samples : e.d[s] = AsList(Mine, s, e.p) THEN "ok"
+                         ELSE IF \E c \in DOMAIN cur : \A s \in 1..ctx.samples : e.d[s] = AsList(cur[c], s, e.p)
+                              THEN "FilterOptionIgnored"      \* the depths of some OTHER read-filter configuration
+                              ELSE "DepthIsFilteredPileup"
     [] e.op = "record" -> RecordVerdict(e)
-    [] e.op = "norecord" -> IF Ambiguous(cur, e.p, ctx.th) \/ ~Emitted(cur, e.p, ctx.th) THEN "ok" ELSE "EmitIffTwo"
+    [] e.op = "norecord" -> IF Ambiguous(obs, e.p, ctx.th) \/ ~Emitted(obs, e.p, ctx.th) THEN "ok" ELSE "EmitIffTwo"
     [] OTHER -> "UnknownEvent"
 
 TInit == /\ l = 1 /\ bad = 0 /\ hist = <<>> /\ last = 0 /\ depth = <<>>
          /\ ctx = [n |-> 0, samples |-> 0, ref |-> <<>>, fc |-> <<>>, th |-> <<>>]
-         /\ cur = <<>>
+         /\ cur = <<>> /\ obs = <<>>
 
 TNext ==
   /\ l <= Len(Trace)
@@ -67,10 +77,16 @@ TNext ==
          /\ bad' = IF v = "ok" THEN bad ELSE bad + 1
          /\ IF e.op = "begin"
             THEN /\ ctx' = [n |-> e.n, samples |-> e.samples, ref |-> e.ref, fc |-> e.fc, th |-> ThOfEvent(e.th)]
-                 /\ cur' = ZeroN(e.samples, e.n)
+                 /\ cur' = [c \in AllFC(e.fc) |-> ZeroN(e.samples, e.n)]
+                 /\ obs' = ZeroN(e.samples, e.n)
             ELSE IF e.op = "aln" /\ v = "ok"
-            THEN cur' = Pile(cur, AlnOfEvent(e), ctx.fc) /\ UNCHANGED ctx
-            ELSE UNCHANGED <<cur, ctx>>
+            THEN /\ cur' = [c \in DOMAIN cur |-> Pile(cur[c], AlnOfEvent(e), c)]
+                 /\ UNCHANGED <<ctx, obs>>
+            ELSE IF e.op = "depth"
+            THEN /\ obs' = [s \in 1..ctx.samples |-> [obs[s] EXCEPT ![e.p] =
+                               [b \in Bases |-> e.d[s][CASE b = "A" -> 1 [] b = "C" -> 2 [] b = "G" -> 3 [] b = "T" -> 4]]]]
+                 /\ UNCHANGED <<ctx, cur>>
+            ELSE UNCHANGED <<cur, ctx, obs>>
   /\ l' = l + 1
   /\ UNCHANGED <<hist, last, depth>>
 
